@@ -150,6 +150,8 @@ impl Format {
     pub fn parse(&self, s_in: &str) -> Result<Epoch, HifitimeError> {
         // All of the integers in a date: year, month, day, hour, minute, second, subsecond, offset hours, offset minutes
         let mut decomposed = [0_i32; MAX_TOKENS];
+        // Which of these fields have been read already
+        let mut seen = [false; MAX_TOKENS];
         // The parsed time scale, defaults to UTC
         let mut ts = TimeScale::UTC;
         // The offset sign, defaults to positive.
@@ -278,6 +280,7 @@ impl Format {
                 }
 
                 let sub_str = &s[prev_idx..end_idx];
+                let before = decomposed;
 
                 match prev_token {
                     Token::YearShort => {
@@ -377,6 +380,22 @@ impl Format {
                             }
                         }
                     }
+                }
+
+                // A field given twice must agree with itself: the last value would otherwise silently replace an
+                // earlier, possibly invalid, one ("2021-02-31 01" with "%Y-%m-%d %d").
+                let position = match prev_token {
+                    Token::MonthName | Token::MonthNameShort => Some(1),
+                    token => token.gregorian_position(),
+                };
+                if let Some(pos) = position {
+                    if seen[pos] && before[pos] != decomposed[pos] {
+                        return Err(HifitimeError::Parse {
+                            source: ParsingError::ValueError,
+                            details: "field given twice with different values",
+                        });
+                    }
+                    seen[pos] = true;
                 }
 
                 prev_idx = idx + 1;
